@@ -143,7 +143,7 @@ let run_convert (kill_fixed : bool) (mount_nl : bool) (f : string list) : string
 
 let run (op : string) (f : string list) : string =
   match op, f with
-  | "convert", f -> run_convert true true f
+  | "convert", f -> run_convert true false f
   | "convert_pinned", f -> run_convert false true f
   | "is_url", [s] -> ok [tf (M.is_url (to_str s))]
   | "cleaned", [p] -> ok [of_str (M.cleaned (to_str p))]
